@@ -1,0 +1,42 @@
+//go:build verif
+
+// Contracts for deductive verification (comment-only; compiled only with -tags verif).
+package stats
+
+// ---- C19: the controller fans a start out to every registered tracer, in registration order, once each, after
+// the start event was recorded; a finish goes to every tracer once each, in reverse order, after the finish
+// event was recorded. (A panicking tracer is recovered by tryRecover; partial correctness.)
+//@ ghost var fanN int
+//@ ghost var fanRecorded bool
+// fanLen: number of registered tracers when the event was recorded
+//@ ghost var fanLen int
+//@ func Controller.DoStart(ctl, ctx, c) r
+//@   props C19
+//@   abstract
+//@   noinline
+//@   modifies fanN, fanRecorded, fanLen
+//@   ghostset-at-entry fanN = 0
+//@   ghostset-at-entry fanRecorded = false
+//@   ghostset after Record: fanRecorded = true
+//@   ghostset after Record: fanLen = len(ctl.tracers)
+//@   assert before Start: fanRecorded && fanN == rangeindex + 1
+//@   ghostset after Start: fanN = fanN + 1
+//@   top-ensures fanRecorded && fanN == fanLen
+//@   loop 0:
+//@     invariant fanRecorded && fanN == rangeindex + 1
+
+//@ func Controller.DoFinish(ctl, ctx, c, err)
+//@   props C19
+//@   abstract
+//@   noinline
+//@   modifies fanN, fanRecorded, fanLen
+//@   ghostset-at-entry fanN = 0
+//@   ghostset-at-entry fanRecorded = false
+//@   ghostset after Record: fanRecorded = true
+//@   ghostset after Record: fanLen = len(ctl.tracers)
+//@   ghostset after SetError: fanLen = len(ctl.tracers)
+//@   assert before Finish: fanRecorded && i == fanLen - 1 - fanN
+//@   ghostset after Finish: fanN = fanN + 1
+//@   top-ensures fanRecorded && fanN == fanLen
+//@   loop 0:
+//@     invariant fanRecorded && i == fanLen - 1 - fanN && fanN >= 0 && i >= -1
